@@ -121,7 +121,7 @@ Definition prog_of (s : stage) : list instr :=
 
 Definition ign_pending (w : world) (u : url) (k : nat) : Prop :=
   match lookup u (s_docs w) with
-  | Some e => exists cd ign0, lookup u (w_open w) = Some cd /\ cd_ign cd = k :: ign0 /\
+  | Some e => exists cd ign0, lookup u (w_open w) = Some cd /\ cd_ign cd = ins k ign0 /\
                 e_lang e = Some (cd_lang cd) /\ kind (cd_lang cd) <> KNone /\ e_text e = Some (cd_text cd) /\
                 e_dict e = cur_dict w u /\ e_lcfg e = w_ccfg w /\ e_pcfg e = w_ccfg w /\ e_ign e = ign0
   | None => coh w u /\ fresh w u
@@ -570,7 +570,7 @@ Proof.
         destruct (lookup u (s_docs w)) as [e|] eqn:Ee.
         -- destruct (entry_facts_l w u e C Hd Htx Ee) as (cd' & Hcd & H1 & H2 & H3 & H4 & H5 & H6 & H7 & H8).
            rewrite Eo in Hcd. inversion Hcd; subst cd'.
-           exists (mkcdoc (cd_lang cd) (cd_text cd) (k :: cd_ign cd)), (cd_ign cd). rewrite lookup_upsert_eq. cbn. repeat split; assumption.
+           exists (mkcdoc (cd_lang cd) (cd_text cd) (ins k (cd_ign cd))), (cd_ign cd). rewrite lookup_upsert_eq. cbn. repeat split; assumption.
         -- pose proof (no_entry_facts_l w u C Ee) as N. rewrite Eo in N.
            unfold coh, fresh, pubval, expected, lastword in *. cbn [s_docs set_open w_open s_log]. rewrite Ee, lookup_upsert_eq. cbn. rewrite N.
            rewrite Eo, N in F. split; [reflexivity|exact F].
